@@ -292,10 +292,11 @@ def do_imp(db, a):
     p = P()
     pkt = scapy_from(a[1], bytes.fromhex(a[2]))
     try:
+        hops = int(a[5]) if len(a) > 5 and a[5] else 0
         if a[3] == "sig":
-            p["I"].impersonate_tcp(pkt, raw_signature=bytes.fromhex(a[4]).decode("latin-1"))
+            p["I"].impersonate_tcp(pkt, raw_signature=bytes.fromhex(a[4]).decode("latin-1"), extra_hops=hops)
         elif a[3] == "label":
-            p["I"].impersonate_tcp(pkt, raw_label=bytes.fromhex(a[4]).decode("latin-1"), database=db)
+            p["I"].impersonate_tcp(pkt, raw_label=bytes.fromhex(a[4]).decode("latin-1"), database=db, extra_hops=hops)
         elif a[3] == "mtulabel":
             p["I"].impersonate_mtu(pkt, raw_label=bytes.fromhex(a[4]).decode("latin-1"), database=db)
         elif a[3] == "mtusig":
@@ -326,7 +327,7 @@ def hist_step(db, step, watch):
         if k == "R":
             return do_getrandom(db, a)
         if k == "I":
-            return do_imp(db, a + [""] * 4)
+            return do_imp(db, a + [""] * 5)
         if k == "J":
             return do_impmtu_label(db, a)
         return "?step"
